@@ -2,7 +2,7 @@ import IodineModel.Props.C12
 import IodineModel.Props.C03
 import IodineModel.Props.C04
 /-
-C05 — the server survives arbitrary datagrams (memory safety, termination).  PARTIAL.
+C05 — the server survives arbitrary datagrams (memory safety, termination).  Per-call theorems; whole sessions in Props/C05Session.lean.
 
 What is PROVED here (by re-stating, under the property's own name, theorems established in the files of C12, C03 and C04 — so that a change
 which breaks one of them breaks this property's obligations too):
@@ -15,9 +15,14 @@ which breaks one of them breaks this property's obligations too):
 * established sessions of other clients are framed: a query handled for one session changes another session's slot only through the two
   documented interactions (allocation of an expired slot by `V`, a packet forwarded to it).
 
+Continued in Props/C05Session.lean (whole sessions on ARBITRARY inputs: no encoder call behind `write_dns` / the NS, A and forward encoders
+ever stores outside its buffer, whatever the question name looks like; the state invariant `BufInv` — every stored list within its C array;
+an explicit bound on the loops of one iteration), Props/C05Continue.lean (non-interference over runs: established sessions continue) and
+Props/C05Main.lean (the same from the command line on).
+
 What is NOT proved and is covered only by the sanitizer-instrumented correspondence runs (harness/h_srv, ASan + UBSan, hostile generators):
 undefined behaviour of kinds the model does not represent (uninitialised reads, aliasing, signed overflow outside the modelled arithmetic),
-the byte-level encoders behind `write_dns` on hostile names (Props/C10 covers legal names), libc/zlib internals, stack usage.
+libc/zlib internals, stack usage.
 -/
 namespace Iodine.C05
 open Iodine
